@@ -5,6 +5,15 @@ V = os.path.dirname(os.path.dirname(os.path.abspath(__file__)))
 props = [json.loads(l) for l in open(os.path.join(V, "properties.jsonl"))]
 
 CLAIMS = {
+ "C11": dict(
+   text="ProcessState.tla models the process-wide memo table keyed by id(graph) with id recycling, pinning and the pass structure of convert(); TLC "
+        "explores all histories within the bounds (CacheTransparent) and the named deviation of the pinned tree must still produce the counterexample. "
+        "Every history of <=2 (thorough: <=3) calls over 23 concrete compile/decompile calls is replayed in a fresh process under a deterministic "
+        "lowest-free id allocator; the cache events recorded through the guarded hooks are validated by TLC against the model's transition relation "
+        "(a stale hit or a store into a missing bucket is not an action) and the observed call's digest must equal its fresh-process digest; convert() "
+        "must not alter its argument.",
+   ref="§3 C11", technique="TLC model checking of the cache/id-reuse model + TLC trace validation of hook-recorded cache events from replayed histories",
+   note="bounded model (2 ids, 2 keys, 3-4 calls); histories over a fixed alphabet of calls incl. witnesses projected from the model's counterexample; lowest-free id reuse"),
  "C15": dict(
    text="Both commands are run as subprocesses. CliContract.tla is the contract as a state machine (RunCompile: exit 0 iff the API accepts; "
         "ReadDocument: documented structure and every jump parameter = 1-based position, across all routines, of the op the API result identifies "
